@@ -670,8 +670,10 @@ fn gen_case(rng: &mut Rng, idx: u64, _run: &Run) -> Vec<String> {
         _ => 1,
     };
     let mw = if rng.chance(1, 5) { 1e-4 } else { 1.0 };
+    let bookkeeping = idx == 2 || (idx > 2 && rng.chance(1, 4));
+    let (ma, mw) = if bookkeeping { (1, 1.0) } else { (ma, mw) };
     // now and then a nonsensical (negative) weight: must neither panic nor select anything odd
-    let (ow, lw, dw) = match rng.below(24) {
+    let (ow, lw, dw) = match if bookkeeping { 23 } else { rng.below(24) } {
         0 => (-3.0, 3.0, 1.0),
         1 => (3.0, -3.0, 1.0),
         2 => (3.0, 3.0, -1.0),
@@ -711,6 +713,61 @@ fn gen_case(rng: &mut Rng, idx: u64, _run: &Run) -> Vec<String> {
             format!("meas l=0 fwd=1 d={} u={}", f(1e-3), f(1e-6)),
             format!("meas l=0 fwd=0 d={} u={}", f(-1e-3), f(1e-6)),
         ];
+    }
+    // corpus case 2 and every fourth case: estimator index bookkeeping under the controller.  The system clock
+    // is put into frequency-steering mode by an external reference (offset +1 ms, sigma 1 us: no steps, so the
+    // half pairs of a tracked link on it are not reset), a TRACKED link to a second external clock collects its
+    // round trips and becomes active (its delay state enters the estimator), clocks and links are added AFTER
+    // it, then it is dropped (everything stored behind it shifts by one), then measurements / steering go on
+    if bookkeeping {
+        ops.push("addext".to_string());
+        g.kinds.push(Some(false));
+        let e0 = g.kinds.len() - 1;
+        if let Some(u0) = push_link(&mut g, &mut ops, rng, e0, 0, false) {
+            ops.push(format!("extupd l={} rd={} leap=0 usable=1", u0, f(0.0)));
+            ops.push(format!("meas l={} fwd=1 d={} u={}", u0, f(1e-3), f(1e-6)));
+        }
+        ops.push("addext".to_string());
+        g.kinds.push(Some(false));
+        let e1 = g.kinds.len() - 1;
+        let t_uid = push_link(&mut g, &mut ops, rng, e1, 0, true);
+        if let Some(uid) = t_uid {
+            ops.push(format!("extupd l={} rd={} leap=0 usable=1", uid, f(0.0)));
+            let pairs = if idx == 2 { 6 } else { rng.usize(4, 7) };
+            for k in 0..pairs {
+                let n = (k as f64) * 1e-8;
+                ops.push(format!("meas l={} fwd=1 d={} u={}", uid, f(1e-3 + 1e-4 + n), f(1e-6)));
+                ops.push(format!("meas l={} fwd=0 d={} u={}", uid, f(-1e-3 + 1e-4 - n), f(1e-6)));
+            }
+        }
+        // things stored behind the tracked link's delay state
+        let extra = if idx == 2 { 2 } else { rng.usize(1, 3) };
+        let mut later_links = vec![];
+        for _ in 0..extra {
+            ops.push(format!("addclock max={} cur={} w={}", f(1e-4), f(0.0), f(1e-8)));
+            g.kinds.push(Some(true));
+            let b = g.kinds.len() - 1;
+            if let Some(u2) = push_link(&mut g, &mut ops, rng, 0, b, false) {
+                later_links.push(u2);
+            }
+        }
+        for u2 in &later_links {
+            ops.push(format!("meas l={} fwd=1 d={} u={}", u2, f(0.25), f(1e-6)));
+        }
+        ops.push(format!("tick dt={}", f(1.0)));
+        for u2 in &later_links {
+            ops.push(format!("meas l={} fwd=0 d={} u={}", u2, f(-0.2500031), f(1e-6)));
+        }
+        if let Some(uid) = t_uid {
+            ops.push(format!("drop l={}", uid));
+            g.links[uid].4 = false;
+        }
+        for u2 in &later_links {
+            ops.push(format!("meas l={} fwd=1 d={} u={}", u2, f(1e-3), f(1e-6)));
+        }
+        if idx == 2 {
+            return ops;
+        }
     }
     // set-up phase: some external references with usable links to the system clock
     let n_ext = match rng.below(8) {
